@@ -320,6 +320,21 @@ package writer
 //@   note the block-summary invariant (LowTs <= every buffered timestamp <= HighTs, RecCount <= len(blockTs)) at the call of encodeTimestamps is an UNCHECKED site assumption: it is established by the ingest path, which is not under contract
 //@ end
 
+// C03 (an accelerator only skips work, never events): the per-segment flag
+// "this persistent query matched something in this segment" decides at rotation
+// whether the segment is put on the query's EMPTY list (and then skipped by the
+// persistent-query path without being searched).  pqMatches[pqid] holds the
+// matches of the CURRENT block only, so the flag must accumulate over the
+// blocks of the segment: once true it stays true, and it becomes true whenever
+// the block being flushed has a match.
+//@ func (*SegStore).AppendWipToSegfile
+//@   props C03
+//@   assumecalleerequires
+//@   site mapupdate segstore.pqNonEmptyResults[pqid] #1:
+//@     assert [a-segment-that-matched-in-an-earlier-block-stays-non-empty] implies(segstore.pqNonEmptyResults[key], value)
+//@   note only the accumulation of the flag is checked; the column flush goroutines are outside the subset (verified as if run alone, see AppendWipToSegfile$1)
+//@ end
+
 // C03 (answers from the aggregation tree equal a scan): the agile tree keeps
 // one dictionary, one reverse dictionary and one next-code counter per group-by
 // column in three parallel arrays.  Dropping columns must compact all three
